@@ -504,9 +504,17 @@ struct Value {
         insert(data, s);
     }
     void do_spk_to_addr() {
-        // data should be OP_DUP OP_HASH160 0x14 <20 b hash> OP_EQUALVERIFY OP_CHECKSIG
+        // data should be OP_DUP OP_HASH160 0x14 <20 b hash> OP_EQUALVERIFY OP_CHECKSIG, or OP_HASH160 0x14 <20 b hash> OP_EQUAL
+        // (the pay-to-script-hash script addr-to-scriptpubkey makes of a pay-to-script-hash address)
+        if (data.size() == 23 && data[0] == OP_HASH160 && data[1] == 0x14 && data[22] == OP_EQUAL) {
+            data[1] = 0x05; // prefix
+            data.erase(data.begin());
+            data.resize(21);
+            do_base58chkenc();
+            return;
+        }
         if (data.size() != 25) {
-            fprintf(stderr, "wrong length (expected 25 bytes)\n");
+            fprintf(stderr, "wrong length (expected 25 bytes, or 23 for pay-to-script-hash)\n");
             return;
         }
         if (data[0] != OP_DUP ||
